@@ -9,20 +9,20 @@ import (
 
 func vecBounds(tier string) mergeBounds {
 	if tier == "quick" {
-		return mergeBounds{maxLen1: 3, triples: []int{0, 1, 2, 3}, modes: []uint32{1026}, depth2: true, d2Menu: []int{0, 1, 3}, fullDrops: true}
+		return mergeBounds{maxLen1: 3, triples: []int{0, 1, 6}, modes: []uint32{1026}, depth2: true, d2Menu: []int{1, 6}, fullDrops: true}
 	}
-	return mergeBounds{maxLen1: 3, modes: []uint32{1026}, depth2: true, d2Menu: []int{0, 1, 2, 3, 4, 5}, depth3: true, fullDrops: true}
+	return mergeBounds{maxLen1: 3, modes: []uint32{1026}, depth2: true, d2Menu: []int{0, 1, 2, 3, 4, 5, 6, 7}, depth3: true, fullDrops: true}
 }
 
 func init() {
 	run.Register(&run.Def{
 		ID:          "C15",
 		Level:       "model_checking",
-		Rule:        "explicit-state exploration of the merge state space over a vector menu of 6 segment shapes (two single-vector docs; a doc with two vectors + a doc without + a doc whose vector equals one of another segment; two field instances in one doc; a segment without the vector field; documents without any vector; empty batch), inputs in memory or re-opened; transitions = Merge(ordered list of <=3 states, EVERY drop vector, incl. inputs whose vectors are all deleted and a field all of whose vectors are deleted); distinct depth-1 states (canonical key incl. the reference's vector table) are merged again at depth 2 (3 in thorough). Oracle in every state (vectors tag, stand-in engine): Count/Fields; exact searches for every grid query and k in {1,10} on the merged segment == reference over the survivors under the new numbering; num_vectors statistic == surviving vectors and no statistic / empty search for a field without surviving vectors; engine live-object count 0 after the merged segment is closed. Non-trivial = merge with >= 1 survivor.",
+		Rule:        "explicit-state exploration of the merge state space over a vector menu of 8 segment shapes (two vector fields in one segment; a segment with only the second vector field; two single-vector docs; a doc with two vectors + a doc without + a doc whose vector equals one of another segment; two field instances in one doc; a segment without the vector field; documents without any vector; empty batch), inputs in memory or re-opened; transitions = Merge(ordered list of <=3 states, EVERY drop vector, incl. inputs whose vectors are all deleted and a field all of whose vectors are deleted); distinct depth-1 states (canonical key incl. the reference's vector table) are merged again at depth 2 (3 in thorough). Oracle in every state (vectors tag, stand-in engine): Count/Fields; exact searches for every grid query and k in {1,10} on the merged segment == reference over the survivors under the new numbering; num_vectors statistic == surviving vectors and no statistic / empty search for a field without surviving vectors; engine live-object count 0 after the merged segment is closed. Non-trivial = merge with >= 1 survivor.",
 		Assumptions: []string{"the vector engine is the pure-Go stand-in (DESIGN 3.4)", "deletion bitmaps only contain existing document numbers"},
 		Bounds: map[string]string{
-			"quick":    "lists <=2 over 6 items + triples over 4 items, every drop vector, depth 2 with 3 items",
-			"thorough": "lists <=3 over 6 items, depth 2 with all items, depth 3",
+			"quick":    "lists <=2 over 8 items + triples over 3 items, every drop vector, depth 2 with 2 items",
+			"thorough": "lists <=3 over 8 items, depth 2 with all items, depth 3",
 		},
 		New: func() interface{} { return &enum.MergeCase{} },
 		Gen: func(tier string, emit func(interface{})) {
